@@ -137,23 +137,21 @@ func (t *HashTrie) contains(word string) bool {
 	return false
 }
 
+// 清除`word`的单词结束标记，并在回溯时删除不再通往任何单词的子节点；
+// 返回`node`是否已经无用（既不是单词结尾也没有子节点）
 func (t *HashTrie) remove(node *trieNode, word []rune, depth int) bool {
 	if node == nil {
 		return false
 	}
 	if depth == len(word) {
-		if node.isEnd {
-			node.isEnd = false
-			return len(node.children) > 0 // 是否还有其它单词的路径
-		}
+		node.isEnd = false
 	} else {
-		node = node.children[word[depth]]
-		if t.remove(node, word, depth+1) {
+		var child = node.children[word[depth]]
+		if t.remove(child, word, depth+1) {
 			delete(node.children, word[depth])
-			return !node.isEnd && len(node.children) > 0
 		}
 	}
-	return false
+	return !node.isEnd && len(node.children) == 0
 }
 
 // 从单词表中删除一个单词
